@@ -13,7 +13,7 @@ namespace Nic.Go
 
 structure Time where
   t : Int := 0
-  deriving Repr, BEq, DecidableEq
+  deriving Repr, BEq, DecidableEq, Inhabited
 
 def Time.Equal (a b : Time) : Bool := a.t == b.t
 def Time.Before (a b : Time) : Bool := decide (a.t < b.t)
@@ -55,7 +55,15 @@ def containsChars : List Char → List Char → Bool
 def contains (s sub : String) : Bool := containsChars s.toList sub.toList
 def hasPrefix (s p : String) : Bool := p.toList.isPrefixOf s.toList
 def hasSuffix (s p : String) : Bool := p.toList.isSuffixOf s.toList
-def len (s : String) : Int := s.utf8ByteSize
+class Len (α : Type) where
+  len : α → Int
+instance : Len String where len s := s.utf8ByteSize
+instance {α} : Len (List α) where len l := l.length
+def len {α} [Len α] (a : α) : Int := Len.len a
+
+/-- `xs[i]` on a slice: out of range is a panic in Go; the translated loops only index below `len` -/
+instance {α} [Inhabited α] : Idx (List α) Nat α where
+  idx l i := l.getD i default
 
 structure ObjectMeta where
   Namespace : String := ""
@@ -65,38 +73,38 @@ structure ObjectMeta where
   CreationTimestamp : Time := {}
   Annotations : StrMap := []
   Labels : StrMap := []
-  deriving Repr, BEq, DecidableEq
+  deriving Repr, BEq, DecidableEq, Inhabited
 
 structure IngressSpec where
   IngressClassName : Option String := none
-  deriving Repr, BEq, DecidableEq
+  deriving Repr, BEq, DecidableEq, Inhabited
 
 structure Ingress where
   ObjectMeta : Nic.Go.ObjectMeta := {}
   Spec : IngressSpec := {}
-  deriving Repr, BEq, DecidableEq
+  deriving Repr, BEq, DecidableEq, Inhabited
 
 /-- the `spec` of the custom resources, as far as the translated functions read it -/
 structure CRSpec where
   IngressClass : String := ""
-  deriving Repr, BEq, DecidableEq
+  deriving Repr, BEq, DecidableEq, Inhabited
 
 structure VirtualServer where
   ObjectMeta : Nic.Go.ObjectMeta := {}
   Spec : CRSpec := {}
-  deriving Repr, BEq, DecidableEq
+  deriving Repr, BEq, DecidableEq, Inhabited
 structure VirtualServerRoute where
   ObjectMeta : Nic.Go.ObjectMeta := {}
   Spec : CRSpec := {}
-  deriving Repr, BEq, DecidableEq
+  deriving Repr, BEq, DecidableEq, Inhabited
 structure TransportServer where
   ObjectMeta : Nic.Go.ObjectMeta := {}
   Spec : CRSpec := {}
-  deriving Repr, BEq, DecidableEq
+  deriving Repr, BEq, DecidableEq, Inhabited
 structure Policy where
   ObjectMeta : Nic.Go.ObjectMeta := {}
   Spec : CRSpec := {}
-  deriving Repr, BEq, DecidableEq
+  deriving Repr, BEq, DecidableEq, Inhabited
 
 structure ActionProxy where
   Upstream : String := ""
